@@ -58,7 +58,7 @@ def snap_token(isd):
   return tok([(r["rid"], r["leaves"], r["containers"], r["digest"]) for r in project_isd(isd, False) if r["paints"]])
 
 
-NSPECIAL = 10
+NSPECIAL = 12
 
 
 def special_docs(rng, index):
@@ -120,6 +120,17 @@ def special_docs(rng, index):
   d10["ranim_styles"] = [[], [["Visibility", vis[1], 12, 16]]]                   # ... visible during the step
   d10["reg"] = [0, 2, 0, 0, 0]
   docs.append(d10)
+  # a paragraph that no region is named for, whose spans go to different regions; the span for the FIRST region holds
+  # nothing but collapsible white space (the paragraph shows nothing there), the span for the second one has text
+  d11 = {"n": 7, "kind": ["body", "div", "p", "span", "text", "span", "text"], "parent": [0, 1, 2, 3, 4, 3, 6],
+         "b": [N, N, 2, N, N, N, N], "e": [N, N, 12, N, N, N, N], "reg": [0, 0, 0, 1, 0, 2, 0], "disp": [""] * 7,
+         "anim": [[] for _ in range(7)], "txt": [0, 0, 0, 0, 1, 0, 1], "nr": 2, "rb": [N, N], "re": [N, N], "rdisp": ["", ""],
+         "ranim": [[], []], "rbg": ["whenActive", "whenActive"], "idisp": "", "D": 2,
+         "space": ["", "", "default", "", "", "", ""], "text": [None, None, None, None, " \n ", None, "Hello"]}
+  docs.append(d11)
+  d12 = json.loads(json.dumps(d11))
+  d12["text"] = [None, None, None, None, "Hello", None, "  "]          # the other way round
+  docs.append(d12)
   for d in docs:
     for key, n in (("styles", d["n"]), ("anim_styles", d["n"]), ("rstyles", d["nr"]), ("ranim_styles", d["nr"])):
       d.setdefault(key, [[] for _ in range(n)])
